@@ -17,6 +17,7 @@ CONSTANTS Site,        \* "config" | "field" | "codec"
           Supertypes,  \* include_supertypes
           MaxLen,
           RegMode,
+          Faults,      \* TRUE: the input alphabet of C05 (variant found, but its own field missing / invalid)
           Walk         \* "recursive" (what the documentation promises) | "direct" (deviant: direct subclasses only)
 VARIABLES defined, registry, registry2, decoder, hist, last
 \* Site = "pair": ONE field  f: Tuple[Annotated[R, D], Annotated[R2, D]]  with two EQUAL discriminators over two
@@ -51,8 +52,14 @@ Body(t) == << <<S("v"), I(0)>>, <<S("x"), I(1)>>, <<S("y"), I(2)>>, <<S("z"), I(
            \o (IF t = "" THEN <<>> ELSE << <<S("type"), S(t)>> >>)
 PairInputs == { L(<<Dct(Body(t1)), Dct(Body(t2))>>) : t1 \in {"a", "b", "c", "zz"}, t2 \in {"a", "b", "c", "zz"} }
 Inputs == IF Site = "pair" THEN PairInputs ELSE IF WithField
-          THEN { Dct(Body(t)) : t \in {"a", "b", "a1", "r", "zz", ""} } \cup { Dct(<< <<S("type"), I(5)>> >>) }
-               \cup (IF Site # "codec" THEN { None, L(<<>>), Dct(<< <<S("v"), I(0)>>, <<S("type"), L(<<>>)>> >>) } ELSE {})
+          THEN (IF Faults
+                THEN \* the tag names an existing variant whose OWN required key is absent / ill-typed: the variant's MissingField /
+                     \* InvalidFieldValue must surface (not "no such variant") -- whether the registry is cold or warm (C05)
+                     { Dct(Body("a")), Dct(Body("zz")), Dct(Body("")),
+                       Dct(<< <<S("v"), I(0)>>, <<S("type"), S("a")>> >>), Dct(<< <<S("v"), I(0)>>, <<S("x"), I(1)>>, <<S("type"), S("a1")>> >>),
+                       Dct(<< <<S("v"), I(0)>>, <<S("y"), S("bad")>>, <<S("type"), S("b")>> >>) }
+                ELSE { Dct(Body(t)) : t \in {"a", "b", "a1", "r", "zz", ""} } \cup { Dct(<< <<S("type"), I(5)>> >>) })
+               \cup (IF Site # "codec" /\ ~Faults THEN { None, L(<<>>), Dct(<< <<S("v"), I(0)>>, <<S("type"), L(<<>>)>> >>) } ELSE {})
           ELSE { Dct(<< <<S("v"), I(0)>>, <<S("x"), I(1)>> >>), Dct(<< <<S("v"), I(0)>>, <<S("x"), I(1)>>, <<S("z"), I(3)>> >>),
                  Dct(<< <<S("v"), I(0)>>, <<S("y"), I(2)>> >>), Dct(<< <<S("v"), I(0)>> >>), Dct(<<>>),
                  Dct(<< <<S("v"), I(0)>>, <<S("w"), S("bad")>> >>) }
